@@ -431,7 +431,7 @@ theorem ios_F2_idempotent_partial (a0 b : Config) (sc : Scripts) (hw : wfB a0 b 
   rw [lines_reconf, h2, ← h3]
   exact (hA.eqv bi hbi bd hbd).blockEquivA
 
-/-- **`ios_F2_idempotent_exact`** — no hypothesis on the planner's answer.  Under `wfB` the script is
+/-- **`ios_F2_idempotent_identity`** — no hypothesis on the planner's answer.  Under `wfB` the script is
 accepted and leads to `d'`; for EVERY Myers result `sc2` of the second compare that is the identity script
 on every compared pair (`identityOn`, decidable: all cells kept on both sides — what a correct differ
 returns on equal lists, `IdentityDiffer`; it can only be returned when device ACL and target ACL are equal
@@ -439,7 +439,7 @@ line by line, `identityOn_equal`) the device is statically settled and the secon
 This is the class in which the first run converges exactly (no suppressed move:
 `ios_plan_converges_no_suppression_partial`); for ACLs that are only block-equivalent after the first run
 `ios_F2_idempotent_partial` with `plan_second_script_counterexample` stays. -/
-theorem ios_F2_idempotent_exact (a0 b : Config) (sc : Scripts) (hw : wfB a0 b sc = true) (hok : (engine a0 b sc).ok = true) :
+theorem ios_F2_idempotent_identity (a0 b : Config) (sc : Scripts) (hw : wfB a0 b sc = true) (hok : (engine a0 b sc).ok = true) :
     ∃ d', (exec (ofConfig a0) (engine a0 b sc).script).map strip = some d' ∧
       ∀ sc2, (∀ p ∈ cmpPairs (alignVRFs (reconf a0 (a0.routes ++ b.routes) d') b {}).2 b,
           identityOn ((reconf a0 (a0.routes ++ b.routes) d').lines p.1) (b.lines p.2) (lookupD sc2.acl p) = true) →
@@ -447,6 +447,36 @@ theorem ios_F2_idempotent_exact (a0 b : Config) (sc : Scripts) (hw : wfB a0 b sc
         (engine (reconf a0 (a0.routes ++ b.routes) d') b sc2).script = [] := by
   obtain ⟨d', h, _, hS⟩ := ios_F2_idempotent_partial a0 b sc hw hok
   exact ⟨d', h, fun sc2 hid => hS sc2 (fun p hp => identityOn_quiet _ _ _ (hid p hp))⟩
+
+/-- **`ios_F2_idempotent_exact`**.  Class: `wfB`, `checkIOSInterfaces` ok, and NO SUPPRESSED MOVE in the
+plan of any pair the first run may compare (`noSupprB`, decidable, printed by the driver).  Then
+
+* the script is accepted and leads to `d'`; every ACL pair the second compare looks at is EQUAL line by
+  line (text, text without `log`, action): the first run converges exactly, not only up to block
+  equivalence (lifting of `ios_plan_converges_no_suppression_partial` through the engine invariant);
+* for every differ that answers the identity script on lists that are equal line by line
+  (`IdentityDiffer`: decidable per answer — `identityOn`: all cells kept on both sides —, checked on the
+  real library on every run, driver field `iddiffer`): the device is statically settled and the second
+  compare prints NOTHING.
+
+No hypothesis on the planner's answer.  For the block-equivalent-but-not-equal class (a move was
+suppressed) `ios_F2_idempotent_partial` with `plan_second_script_counterexample` stays. -/
+theorem ios_F2_idempotent_exact (a0 b : Config) (sc : Scripts) (hw : wfB a0 b sc = true) (hok : (engine a0 b sc).ok = true)
+    (hns : noSupprB a0 b sc = true) :
+    ∃ d', (exec (ofConfig a0) (engine a0 b sc).script).map strip = some d' ∧
+      (∀ p ∈ cmpPairs (alignVRFs (reconf a0 (a0.routes ++ b.routes) d') b {}).2 b,
+        linesEqB ((reconf a0 (a0.routes ++ b.routes) d').lines p.1) (b.lines p.2) = true) ∧
+      ∀ sc2, (∀ p ∈ cmpPairs (alignVRFs (reconf a0 (a0.routes ++ b.routes) d') b {}).2 b,
+          linesEqB ((reconf a0 (a0.routes ++ b.routes) d').lines p.1) (b.lines p.2) = true →
+          identityOn ((reconf a0 (a0.routes ++ b.routes) d').lines p.1) (b.lines p.2) (lookupD sc2.acl p) = true) →
+        settledB (reconf a0 (a0.routes ++ b.routes) d') b sc2 = true ∧
+        (engine (reconf a0 (a0.routes ++ b.routes) d') b sc2).script = [] := by
+  apply F2_idempotent_exact a0 b sc (WF_of_wfB hw) hok
+  intro aN bN hcmp
+  obtain ⟨ai, hai, bi, hbi, hn, ba, hba, bb, hbb, hd, h5, h6⟩ := hcmp
+  have hmem : (aN, bN) ∈ cmpPairs (alignVRFs a0 b {}).2 b :=
+    mem_cmpPairs.mpr ⟨ai, hai, bi, hbi, hn, ba, hba, bb, hbb, hd, h5, h6⟩
+  exact List.all_eq_true.mp hns (aN, bN) hmem
 
 /-- The identity script is quiet, and exists only for lists that are equal line by line. -/
 theorem ios_identity_script_quiet (al bl : List ALine) (rs : List Range) (h : identityOn al bl rs = true) :
@@ -718,7 +748,39 @@ open W in
 example : ((exec (ofConfig devM) (engine devM tgtM scM).script).map fun d =>
     (cmpPairs (alignVRFs (reconf devM (devM.routes ++ tgtM.routes) d) tgtM {}).2 tgtM).all fun p =>
       identityOn ((reconf devM (devM.routes ++ tgtM.routes) d).lines p.1) (tgtM.lines p.2) (lookupD scM2.acl p)) = some true ∧
-    noSupprRun (engine devM tgtM scM) = true := by decide
+    noSupprRun (engine devM tgtM scM) = true ∧ noSupprB devM tgtM scM = true ∧ wfB devM tgtM scM = true := by decide
+
+/-! ### Outside `wfB`: a device binding of an access list that does not exist on the device -/
+
+def W.devG : Config :=
+  { intfs := [{ name := "Ethernet0", addr := "x", binds := [⟨"e0_in", "in"⟩, ⟨"ghost", "out"⟩] }],
+    acls := [("e0_in", [W.pA, W.dAny])] }
+def W.tgtG1 : Config := { intfs := [W.e0 "e0_in"], acls := [("e0_in", [W.pA, W.dAny])] }
+def W.tgtG2 : Config :=
+  { intfs := [{ name := "Ethernet0", addr := "x", binds := [⟨"e0_in", "in"⟩, ⟨"e0_out", "out"⟩] }],
+    acls := [("e0_in", [W.pA, W.dAny]), ("e0_out", [W.pT])] }
+def W.scG : Scripts := { acl := [(("e0_in", "e0_in"), [⟨0,2,0,2⟩])] }
+
+open W in
+/-- A dangling device binding (`ip access-group ghost out`, no access list `ghost`) is outside `wfB`
+(first failing conjunct: "device-binding-of-undefined-acl"; 51 of 2900 quick cases).  What the engine does
+there — the tie compares it with the real drc on every such case —: the sub-command has no partner
+(its key is the NAME, not `$REF`), it is removed, and a target binding of that direction is added after
+the transfer of its ACL; the script is accepted and the device converges.  Kernel-evaluated on two
+targets (binding removed / replaced); the general theorem for this class is NOT proved (the
+specification of `diffUnordered` on the sub-commands, `diffBinds_canon`, assumes keys `$REF dir`). -/
+theorem ios_dangling_binding_witness :
+    wfB devG tgtG1 scG = false ∧ wfWhy devG tgtG1 scG = "device-binding-of-undefined-acl" ∧
+    showChanges (engine devG tgtG1 scG).script = ["interface Ethernet0", "no ip access-group ghost out"] ∧
+    ((exec (ofConfig devG) (engine devG tgtG1 scG).script).map fun d =>
+      (slotOf d "Ethernet0" "in", slotOf d "Ethernet0" "out", d.acls.map (·.1))) = some (some "e0_in", none, ["e0_in"]) ∧
+    showChanges (engine devG tgtG2 scG).script =
+      ["interface Ethernet0", "no ip access-group ghost out", "ip access-list extended e0_out-DRC-0",
+       "permit tcp 10.1.0.0 0.0.255.255 any", "exit", "interface Ethernet0", "ip access-group e0_out-DRC-0 out"] ∧
+    ((exec (ofConfig devG) (engine devG tgtG2 scG).script).map fun d =>
+      (slotOf d "Ethernet0" "in", slotOf d "Ethernet0" "out", d.acls.map (·.1), (linesOf d "e0_out-DRC-0").map (·.text))) =
+      some (some "e0_in", some "e0_out-DRC-0", ["e0_in", "e0_out-DRC-0"], ["permit tcp 10.1.0.0 0.0.255.255 any"]) := by
+  decide
 
 /-! ### Resume: witnesses -/
 
@@ -787,8 +849,8 @@ def obligations : List Lean.Name := [
   ``ios_bindings_converge, ``ios_routes_converge,
   ``ios_routes_untouched_if_unspecified, ``ios_unmanaged_vrf_untouched, ``alignVRFs_frame,
   ``ios_F2_converges_counterexample, ``ios_unchanged_if_equivalent_counterexample, ``ios_F2_unchanged_only_if_equivalent, ``ios_acl_quiet_only_if_equivalent,
-  ``ios_F2_quiet, ``ios_F2_idempotent_partial, ``ios_F2_idempotent_exact, ``ios_identity_script_quiet, ``ios_no_generated_leftover, ``ios_F2_resume_partial, ``ios_split_script_same,
-  ``ios_wfB_not_prefix_closed, ``ios_route_plan_phases, ``ios_route_commands_are_plan,
+  ``ios_F2_quiet, ``ios_F2_idempotent_partial, ``ios_F2_idempotent_exact, ``ios_F2_idempotent_identity, ``ios_identity_script_quiet, ``ios_no_generated_leftover, ``ios_F2_resume_partial, ``ios_split_script_same,
+  ``ios_wfB_not_prefix_closed, ``ios_dangling_binding_witness, ``ios_route_plan_phases, ``ios_route_commands_are_plan,
   ``ios_routes_covered_every_step, ``ios_routes_uncovered_between_halves, ``ios_plan_all_both_quiet, ``planIOS_empty_blockEquiv,
   ``plan_second_script_counterexample]
 
